@@ -43,6 +43,7 @@ import os
 import random
 import re
 import sys
+import threading
 import time
 
 import common
@@ -182,6 +183,13 @@ def _task_data(task, fail=None):
                 d['fail'] = ['UnmetDependency', sorted(set(str(getattr(fail, 'message', '')).split()))]
             else:
                 d['fail'] = [type(fail).__name__, _blob(getattr(fail, 'message', None)), _blob(fail.get_msg())]
+            # everything a reporter may read on the failure object: name, the `report` flag (ConsoleReporter prints a
+            # failure only if it is set), the traceback lines, and which attributes the object carries at all
+            d['fail_obj'] = {'name': fail.get_name(), 'report': getattr(fail, 'report', '<missing>'),
+                             'traceback': _blob(''.join(getattr(fail, 'traceback', None) or [])),
+                             'attrs': sorted(k for k in vars(fail))}
+            if type(fail).__name__ != 'UnmetDependency':       # (its message is a set in arrival order, see above)
+                d['fail_obj']['repr'] = _blob(repr(fail))
         except Exception as ex:  # noqa
             d['fail'] = ['unreadable', type(ex).__name__]
     return d
@@ -205,11 +213,16 @@ def _snapshot():
         snap['db'] = db
     except Exception as ex:  # noqa
         snap['db'] = {'unreadable': type(ex).__name__}
-    for name in sorted(os.listdir('.')):
-        if name.startswith('db.json') or name == 'events.jsonl' or name.startswith('go.') or name.startswith('ctl.') or not os.path.isfile(name):
-            continue
-        with open(name, 'rb') as f:
-            snap['files'][name] = hashlib.sha1(f.read()).hexdigest()[:16]
+    for root, dirs, names in os.walk('.'):
+        dirs.sort()
+        for d in dirs:
+            snap['files'][os.path.relpath(os.path.join(root, d), '.') + '/'] = 'dir'
+        for name in sorted(names):
+            rel = os.path.relpath(os.path.join(root, name), '.')
+            if rel.startswith('db.json') or rel == 'events.jsonl' or rel.startswith('go.') or rel.startswith('ctl.'):
+                continue
+            with open(rel, 'rb') as f:
+                snap['files'][rel] = hashlib.sha1(f.read()).hexdigest()[:16]
     return snap
 
 
@@ -294,6 +307,9 @@ def b_action(spec, idx, tname, targets, dependencies, changed, **kw):
         sys.stdout.write(('%s-%d-' % (tname, idx)) * (a['big'] // (len(tname) + 4)))
     if a.get('err'):
         sys.stderr.write(a['err'])
+    for f in a.get('files') or []:          # plain output files (not doit targets), e.g. inside a folder made before
+        with open(f, 'w') as fh:
+            fh.write('file of %s\n' % tname)
     got = {k: kw[k] for k in sorted(kw) if k not in ('task',)}
     if a.get('write'):
         for f in targets:
@@ -312,6 +328,15 @@ def b_action(spec, idx, tname, targets, dependencies, changed, **kw):
     if ret == 'raise':
         raise ValueError('boom in %s é' % tname)
     from doit.exceptions import TaskFailed, TaskError
+    if ret == 'failobj_silent':
+        return TaskFailed('silent failure of %s' % tname, report=False)
+    if ret == 'errobj_silent':
+        return TaskError('silent error of %s' % tname, report=False)
+    if ret == 'errobj_wrapped':
+        try:
+            raise KeyError('inner é of %s' % tname)
+        except KeyError as exc:
+            return TaskError('wrapped error of %s' % tname, exc, report=(idx % 2 == 0))
     if ret == 'failobj':
         return TaskFailed('failed object of %s' % tname)
     if ret == 'errobj':
@@ -355,7 +380,10 @@ def _b_task_dict(t):
     d = {}
     acts = []
     for i, a in enumerate(t['actions']):
-        if a['t'] == 'cmd':
+        if a['t'] == 'mkdir':
+            from doit.tools import create_folder
+            acts.append((create_folder, [a['path']]))
+        elif a['t'] == 'cmd':
             acts.append(_cmd_of(a, t['name'], i))
         else:
             acts.append((b_action, [a, i, t['name']]))
@@ -532,10 +560,18 @@ def gen_b(rng, runner='serial', nproc=0):
             tasks.append(_bt('concat%d' % i, 60 + i, calc_dep=['scan%d' % i], file_dep=['header.txt'], targets=['all%d.txt' % i],
                              actions=[_act(ret='dict', deps=True, cat=True, write=True, echo_got=True, vals={'c': i})],
                              task_dep=(['total'] if rng.random() < 0.3 else [])))
+    # stock helper actions of doit.tools shared by tasks that are ready at the same time: several independent tasks
+    # start with create_folder on the SAME missing path (nested), then write a file into it
+    if rng.random() < 0.5:
+        path = rng.choice(['build', 'build/sub', 'out/a/b'])
+        for i in range(rng.randint(2, 3)):
+            tasks.append(_bt('mk%d' % i, 70 + i, actions=[_act(t='mkdir', path=path),
+                                                         _act(files=['%s/mk%d.txt' % (path, i)], out='mk%d' % i)]))
     cont = rng.random() < 0.6
     if cont:
         # failures of every kind (only with --continue: otherwise the run is cut short and nothing is compared)
-        kinds = ['false', 'raise', 'failobj', 'errobj', 'cmdfail', 'cmderr']
+        kinds = ['false', 'raise', 'failobj', 'errobj', 'cmdfail', 'cmderr', 'failobj_silent', 'errobj_silent', 'errobj_wrapped',
+                 'failobj_silent']
         for i in range(rng.randint(0, 3)):
             k = rng.choice(kinds)
             a = _act(t='cmd', ret=k, out='bad%d out' % i, err='bad%d err é' % i) if k.startswith('cmd') else \
@@ -564,20 +600,56 @@ def gen_b(rng, runner='serial', nproc=0):
 # running one case under one runner, summary, comparison
 # ======================================================================================================
 
-def run_one(case):
-    """run_impl with this module's namespace builder and reporter (runlib.build_namespace is swapped for the call)"""
+def _gate(orig):
+    """os.path.isdir / os.makedirs / os.mkdir with a switch point of the deterministic thread scheduler in front (worker
+    threads only; a no-op for the serial and the process runner): the interleavings of two tasks that prepare the same
+    folder become schedulable"""
+    def gated(*a, **kw):
+        rec = runlib._REC
+        if rec is not None and rec.sched is not None and threading.current_thread() is not threading.main_thread() \
+                and getattr(threading.current_thread(), '_sched_id', None) is not None:
+            try:
+                rec.sched.checkpoint()
+            except Exception:  # noqa
+                pass
+        return orig(*a, **kw)
+    gated._c08_orig = orig
+    return gated
+
+
+def _uses_folders(case):
+    return case.get('fam') == 'B' and any(a.get('t') == 'mkdir' for t in case['tasks'] for a in t['actions'])
+
+
+_RUN_IMPL = runlib.run_impl
+
+
+def run_patched(case, watchdog=None, keep_raw=True):
+    """runlib.run_impl with this module's namespace builder and reporter (runlib.build_namespace is swapped for the
+    call) and, for thread runs of folder cases, the gated os functions"""
     fam = case.get('fam', 'A')
     runlib.build_namespace = build_ns_b if fam == 'B' else build_ns_a
+    gates = []
+    if _uses_folders(case) and case['runner'] == 'thread':
+        for mod, name in ((os.path, 'isdir'), (os, 'makedirs'), (os, 'mkdir')):
+            gates.append((mod, name, getattr(mod, name)))
+            setattr(mod, name, _gate(getattr(mod, name)))
     try:
-        obs = runlib.run_impl(case, keep_raw=True)
-        if obs['err'] and obs['err'].startswith('crash:') and not obs['trace']:
-            # as runlib.run_checked: a deterministic crash of doit before the first event reproduces (and is reported);
-            # a transient failure of the environment (harness source rewritten while inspect reads it, EMFILE) does not
-            again = runlib.run_impl(case, keep_raw=True)
-            if again['err'] != obs['err']:
-                obs = again
+        return _RUN_IMPL(case, watchdog=watchdog, keep_raw=keep_raw)
     finally:
         runlib.build_namespace = _ORIG_BUILD
+        for mod, name, orig in gates:
+            setattr(mod, name, orig)
+
+
+def run_one(case):
+    obs = run_patched(case)
+    if obs['err'] and obs['err'].startswith('crash:') and not obs['trace']:
+        # as runlib.run_checked: a deterministic crash of doit before the first event reproduces (and is reported);
+        # a transient failure of the environment (harness source rewritten while inspect reads it, EMFILE) does not
+        again = run_patched(case)
+        if again['err'] != obs['err']:
+            obs = again
     return obs
 
 
@@ -872,6 +944,8 @@ def _count_case(st, case, ref):
             st.count('B:nactions:%d' % len(t['actions']))
             for a in t['actions']:
                 st.count('B:action:%s:%s' % (a['t'], a.get('ret', 'none')))
+                if a['t'] == 'mkdir':
+                    st.count('B:create_folder:%s' % a['path'])
                 if a.get('big'):
                     st.count('B:action:big')
             for g in t['getargs']:
@@ -1159,6 +1233,49 @@ def _job_intact_py(c, got):
     return True
 
 
+def failure_objects():
+    """failure objects as actions / doit produce them, with default and non-default attributes"""
+    common.use_repo()
+    from doit import exceptions as ex
+    out = []
+    for cls in (ex.TaskFailed, ex.TaskError, ex.UnmetDependency, ex.SetupError, ex.DependencyError, ex.BaseFail):
+        for report in (True, False):
+            out.append(cls('msg of %s é' % cls.__name__, report=report))
+            try:
+                raise ValueError('inner %s' % cls.__name__)
+            except ValueError as exc:
+                out.append(cls('wrapping %s' % cls.__name__, exc, report=report))
+    inner = ex.TaskError('inner fail', report=False)
+    inner.traceback = ['line 1\n', 'line 2 é\n']
+    out.append(ex.TaskFailed('outer', inner, report=False))
+    return out
+
+
+def _fail_view(f):
+    return {'type': type(f).__name__, 'name': f.get_name(), 'message': f.message, 'traceback': list(f.traceback or []),
+            'report': getattr(f, 'report', '<missing>'), 'msg': f.get_msg(), 'str': str(f), 'attrs': sorted(vars(f))}
+
+
+def eval_failure_pickle(st):
+    """K3c / P at API level: what `result_q.put(result)` does to `result['failure']` (multiprocessing queues pickle):
+    the object the main process hands to the reporter must show the same name, message, traceback, report flag"""
+    import pickle
+    for f in failure_objects():
+        before = _fail_view(f)
+        try:
+            after = _fail_view(pickle.loads(pickle.dumps({'name': 't', 'failure': f}))['failure'])
+        except Exception as ex:  # noqa
+            after = {'exc': type(ex).__name__, 'msg': str(ex)[:200]}
+        st.case({'failure_pickle': [before['type'], before['report'], bool(before['traceback'])]}, nontrivial=True)
+        st.count('K3:failure_pickle:%s:report=%s' % (before['type'], before['report']))
+        if before != after:
+            leaves = []
+            _leaf_diff(before, after, [], leaves)
+            st.violation({'failure_case': {'type': before['type'], 'report': before['report'],
+                                           'wrapped': bool(before['traceback'])}, 'before': before, 'after': after},
+                         'monitor', 'C08 data_intact: failure details do not survive the result queue (pickle): %s' % [l[0] for l in leaves][:5])
+
+
 def eval_data_batch(batch):
     st = common.WorkerStats()
     common.use_repo()
@@ -1167,6 +1284,8 @@ def eval_data_batch(batch):
         cases.append(data_case(random.Random(seed)))
         cases.append(job_case(random.Random(seed ^ 0x5a5a)))
     cases = batch.get('cases', []) + cases
+    if batch.get('failures'):
+        eval_failure_pickle(st)
     reqs = [dict(c, model='c08', op='job' if c.get('job') else 'data') for c in cases]
     try:
         answers = common.drv_batch(reqs)
@@ -1266,11 +1385,11 @@ def eval_batch(batch):
             e = variant(c, 'thread', int(explore))
             if c.get('fam', 'A') == 'A':
                 e['model'] = runlib.expand(e)
-            runlib.build_namespace = build_ns_a if c.get('fam', 'A') == 'A' else build_ns_b
+            runlib.run_impl = run_patched            # enumerate_schedules calls runlib.run_impl
             try:
-                runlib.enumerate_schedules(e, limit=24, on_obs=lambda cc, oo: got.append(cc))
+                runlib.enumerate_schedules(e, limit=int(c.pop('explore_limit', 24)), on_obs=lambda cc, oo: got.append(cc))
             finally:
-                runlib.build_namespace = _ORIG_BUILD
+                runlib.run_impl = _RUN_IMPL
             seen = set()
             for cc in got:
                 key = json.dumps(cc.get('schedule'))
@@ -1403,7 +1522,7 @@ def plan(ctx, scale=1.0):
     main_b = [{'groups': main[i:i + msize], 'shrink_s': 8.0} for i in range(0, len(main), msize)]
     n_data = int((300 if quick else 5000) * b)
     seeds = [rng.randrange(1 << 60) for _ in range(n_data)]
-    data_b = [{'seeds': seeds[i:i + 150]} for i in range(0, len(seeds), 150)]
+    data_b = [{'seeds': seeds[i:i + 150], 'failures': i == 0} for i in range(0, len(seeds), 150)]
     return pool_b, main_b, data_b
 
 
@@ -1452,6 +1571,20 @@ def search(ctx):
 def replay(ctx, data):
     w = data.get('witness') or {}
     common.use_repo()
+    if 'failure_case' in w:
+        import pickle
+        fc = w['failure_case']
+        ok = True
+        for f in failure_objects():
+            v = _fail_view(f)
+            if [v['type'], v['report'], bool(v['traceback'])] != [fc['type'], fc['report'], fc['wrapped']]:
+                continue
+            after = _fail_view(pickle.loads(pickle.dumps({'failure': f}))['failure'])
+            print('before the queue:', json.dumps(v, sort_keys=True)[:600])
+            print('after the queue :', json.dumps(after, sort_keys=True)[:600])
+            ok = ok and v == after
+        print('failure details intact:', ok)
+        return ok
     if 'data_case' in w:
         c = w['data_case']
         if c.get('job'):
